@@ -31,7 +31,10 @@ META = {
                   "error (neither absent nor a block) is not counted as a violation (the model predicts it "
                   "never happens; it would be reported as drift). 'partial' is instantiated on the real code "
                   "at the first / middle / last intermediate 64 KiB flush; squares: empty block, ODS width 2, "
-                  "ODS width 16 (quick) and 32 (thorough). A partially written Q4 file behind an existing "
+                  "ODS width 16 (quick) and 32 (thorough), each WITHOUT tail padding (every share stored) and, "
+                  "for a part of the cases, with padding. The abstraction of a file used for conformance is its "
+                  "CONTENT (longest prefix equal to the independently built image of the complete file), not its "
+                  "size. A partially written Q4 file behind an existing "
                   "height link (re-put over a pruned block) is accepted as long as it is never served.",
     "design_ref": "DESIGN.md §5 C07, §6 #10",
 }
@@ -133,6 +136,14 @@ def run(ctx):
         ctx.inconclusive("selftest: Store_defect.cfg (no Q4 validation on lazy open) no longer violates "
                          "NoPartialServed/LookupRight: got %s" % rd.violated)
     ctx.cover(model_selftest_defect_detected=(rd.violated in ("NoPartialServed", "LookupRight")))
+    # ... and the model of writers that reserve the final file size first (Truncate before writing: the size
+    # validations are blind to half-written files) must violate the property as well
+    rp = ctx.tlc("store/Store.tla", "store/Store_prealloc.cfg", workers=4, deadlock=False, timeout=600,
+                 must_pass=False, count=False)
+    bad = ("NoPartialServed", "LookupRight", "LinkedIsComplete", "RePutWorks")
+    if rp.violated not in bad:
+        ctx.inconclusive("selftest: Store_prealloc.cfg no longer violates the property: got %s" % rp.violated)
+    ctx.cover(model_selftest_prealloc_detected=(rp.violated in bad))
 
     # 3. B2 + trace recording on the real code
     rnd = random.Random(ctx.seed)
